@@ -163,8 +163,8 @@ def run(tier, seed, replay=None):
             fresh = os.path.join(tdir, "release", "c14fresh")
         else:
             res.violation("a fresh #[derive(Parser)] of meta/src/grammar.pest does not compile", {"theorem_or_correspondence": "C14 fresh parser (build)", "log": fout[-3000:]}, no_failing_input=True)
-    for sd in seeds:
-        cmds.append("%s diff %s %d %d %s| %s %d" % (hbin, REPO, count, sd, ("| %s " % fresh) if fresh else "", runner, maxmodel))
+    for i, sd in enumerate(seeds):
+        cmds.append("%s diff %s %d %d %s %s| %s %d" % (hbin, REPO, count, sd, "" if i == 0 else "nofixed", ("| %s " % fresh) if fresh else "", runner, maxmodel))
     mism, stats, which = run_pipes(cmds)
 
     spec_m = [m for m in mism if m["kind"] == "spec"]
@@ -229,7 +229,7 @@ def run(tier, seed, replay=None):
                       {"theorem_or_correspondence": "coq/props/C14.v", "log": thm["log"][-3000:]}, no_failing_input=not spec_found)
     log("C14: regeneration %s; %d differential cases (%d through the model, %d against a compiled fresh derive), %d .pest files; meta-grammar: %s rules, in H: %s; optimizer cross-check: %s" % (
         "byte-identical" if regen_ok else "DIFFERENT", stats.get("cases", 0), stats.get("modelled", 0), stats.get("fresh_compared", 0), stats.get("pest_files", 0) // max(1, len(seeds)),
-        stats.get("rules", "?"), stats.get("in_H", "?"), "proved" if orc2 == 0 else "not built"))
+        stats.get("rules", 0) // max(1, len(seeds)), "yes" if stats.get("in_H", 0) == len(seeds) else "NO", "proved" if orc2 == 0 else "not built"))
     res.coverage.update({
         "evaluations": stats.get("evaluations", 0),
         "distinct_nontrivial": stats.get("distinct_nontrivial", 0),
